@@ -170,6 +170,23 @@ NOTES = {
     "C18-e": ("hop counter became a u8 tested only when a label is reached: ladders of 256+ pointers wrap it (release) or panic (debug)", "caught at once (runs of back-to-back pointers)"),
     "C12-e": ("flags() masks the extended half down to DO: reserved extended flag bits of an OPT record vanish from the 32-bit word", "caught at once (OPT records carry arbitrary 16-bit extended flags)"),
     "C17-e": ("compress/rename share a thread-local suffix table cleared lazily by a 16-bit epoch that wraps without wiping the slots: the 65535th call on a thread sees the entries of the first", "first run: only the regenerated inventory obligation broke (no-failing-input-found); added HL: f(x) on a fresh thread against f(x) after f(y) and n small calls, n around 2^8 and 2^16 - now caught with an input"),
+    "C01-f": ("check_compressed_name's loop bounded by 143 steps: a name with 127 one-byte labels read through 16 pointers needs 144 (unreachable!() reached)", "first run: only the regenerated inventory broke (no-failing-input-found); added the limit-product family (126 / 127 / 128 one-byte labels through 15 / 16 / 17 hops, in one piece and spread over the hops) - now caught with an input"),
+    "C02-f": ("pointer target decoded with a 13-bit mask in the validator: targets 8192..16383 are checked 8192 bytes too early", "caught at once (label-at family: pointer targets up to 16383)"),
+    "C03-f": ("raw_name_to_str drops bit 13 of the pointer target", "caught at once (same family)"),
+    "C04-f": ("decompression copies the question name verbatim: a question written as a pointer into the header keeps its pointer on an object marked pointer-free; header setters then change the question under the cached one", "MISSED by C04 at first (C05 reports it at once: same change as C05-f); C04 now has histories on header-pointer questions that decompress, read the cache, then call header setters / insert - now caught"),
+    "C05-f": ("decompression copies the question name verbatim (pointer into the header kept)", "caught at once (hand-built header-pointer packets)"),
+    "C06-f": ("dictionary comparison folds bit 0x20 of every byte, not only of letters: `@` / backquote, `[` / `{` ... compare equal", "caught at once (names over the full byte alphabet the parser accepts)"),
+    "C07-f": ("replace_raw no longer checks that the match position is a label boundary of the name", "caught at once (byte-coincidence near misses added for C07-d)"),
+    "C08-f": ("insertion point of a question takes the additional offset before the name-server offset: a question inserted into an object without question and without answers lands after the authority records", "MISSED at first; added delete-the-question-and-insert-another on all eight shapes of packet (each record section empty or not), with and without OPT - now caught"),
+    "C09-f": ("rename_with_raw_names no longer marks the object as possibly compressed: a later length-changing mutation skips decompression", "caught at once (histories with a rename after a decompressing operation)"),
+    "C10-f": ("current_section() reports an error for every record of an object without a question; resize_rr asks for the section after it moved the bytes", "caught at once (histories on objects whose question was deleted)"),
+    "C11-f": ("same change as C09-f, demonstrated through a deleting walk", "MISSED by C11 at first (C09 reports it at once); C11 now has walks that delete after a decompressing operation followed by a whole-packet rename - now caught"),
+    "C12-f": ("set_response delegates to a helper that treats a 12-byte packet as too short", "caught at once (setters on the empty 12-byte packet, added for C12-d)"),
+    "C13-f": ("TXT size limit subtracts the owner name's length: texts of 3571..3825 bytes under owners of 234+ characters refused", "caught at once"),
+    "C14-f": ("early length guard counts the default zone even for names that end in a dot", "caught at once"),
+    "C16-f": ("descriptions kept in a process-wide table under a hash of the text, overwritten in place on collision: exactly one pair of reachable descriptions collides", "first run: only the regenerated inventory broke (no-failing-input-found); the failing calls now produce thirteen descriptions (six more through set_raw_name and rename) and every ordered pair of them is scheduled on two threads - now caught with an input"),
+    "C17-f": ("from_string keeps a per-thread memo of the last record keyed on its blank-separated fields: blanks inside a quoted TXT string are data", "first run: only the regenerated inventory broke (no-failing-input-found); added near-duplicate pairs (y = x with one small edit: a blank inserted / changed / removed, preferably inside quotes; a character or a bit changed) - now caught with an input"),
+    "C18-f": ("hop counter counted up in 8 bits and tested only at a label", "caught at once (runs of 400 / 4000 back-to-back pointers)"),
     "C17-c": ("compress() output built in a thread-local scratch buffer that is not cleared above 64 KiB of capacity", "first run: only the regenerated inventory obligation broke; added small operations right after 33 .. 65 KB ones - now caught with an input"),
 }
 
